@@ -145,7 +145,7 @@ var checks = []Check{
 			{Pkg: "proc/redis", Scenarios: []string{"C07/histories"}, Shards: 16, QuickS: 90, ThoroughS: 240},
 			{Pkg: "proc/redis", Scenarios: []string{"C02/upstream-redirect"}, Shards: 16, QuickS: 150, ThoroughS: 240},
 			{Pkg: "proc/redis", Scenarios: []string{"C02/stack-race"}, Race: true, Shards: 1, QuickS: 120, ThoroughS: 240},
-			{Pkg: "proc/redis", Scenarios: []string{"C07/concurrent-loss"}, Shards: 16, QuickS: 60, ThoroughS: 240},
+			{Pkg: "proc/redis", Scenarios: []string{"C07/concurrent-loss", "C07/connect-lost"}, Shards: 16, QuickS: 90, ThoroughS: 240},
 			{Pkg: "proc/redis", Scenarios: []string{"C07/refresh-in-flight"}, Shards: 16, QuickS: 60, ThoroughS: 240},
 		},
 	},
